@@ -326,14 +326,16 @@ def run_case(case, part):
             if len(got) != len(gs):
                 part.violation("C12/%s/duplicate-answers/%s" % (store, feature(specs)), "an object version is returned twice", c, sorted(gs, key=str), sorted(got, key=str))
             # filters attached to a source apply to every one of its answers (get / all_versions)
-            if all(r == "attached" for r in routes) and len(specs) <= 2:
+            # ... also when some of them are attached to a composite in front of the source (every filter at every level applies to get / all_versions of the outermost target)
+            if all(r != "query" for r in routes) and len(specs) <= 2:
+                lvl = "attached" if all(r == "attached" for r in routes) else "federated"
                 for id_ in (M1, IND, XF, IP):
                     part.transitions += 2
                     try:
-                        g = src.get(id_)
-                        av = src.all_versions(id_)
+                        g = target.get(id_)
+                        av = target.all_versions(id_)
                     except Exception as e:
-                        part.violation("C12/%s/attached-get-raises/%s/%s" % (store, type(e).__name__, feature(specs)), "get/all_versions raises with attached filters",
+                        part.violation("C12/%s/%s-get-raises/%s/%s" % (store, lvl, type(e).__name__, feature(specs)), "get/all_versions raises with attached filters",
                                        dict(c, id=id_), "answer", "%s: %s" % (type(e).__name__, str(e)[:200]))
                         continue
                     expv = {k for k in exp if k[0] == id_}
@@ -343,10 +345,10 @@ def run_case(case, part):
                                        "timestamp filter string compared textually (not as an instant) with the string timestamp of a dict-kept object",
                                        dict(c, id=id_), sorted(expv, key=str), sorted(gav, key=str))
                     elif gav != expv:
-                        part.violation("C12/%s/attached-all_versions/%s" % (store, feature(specs)), "all_versions ignores or misapplies filters attached to the source",
+                        part.violation("C12/%s/%s-all_versions/%s" % (store, lvl, feature(specs)), "all_versions ignores or misapplies filters attached to the source (or to a composite in front of it)",
                                        dict(c, id=id_), sorted(expv, key=str), sorted(gav, key=str))
                     if g is not None and key(g) not in expv:
-                        part.violation("C12/%s/attached-get/%s" % (store, feature(specs)), "get returns an object that fails a filter attached to the source",
+                        part.violation("C12/%s/%s-get/%s" % (store, lvl, feature(specs)), "get returns an object that fails a filter attached to the source (or to a composite in front of it)",
                                        dict(c, id=id_), sorted(expv, key=str), key(g))
         if len(set(map(frozenset, answers.values()))) > 1:
             part.violation("C12/%s/routes-disagree/%s" % (store, feature(specs)), "the same filters give different answers depending on how they reach the source",
